@@ -162,7 +162,7 @@ func (cl Serializer) EncodeDnsRequestWithParams(req Request, qt dnsmessage.Type,
 // DecodeDnsRequest will take a DNS message and decode it into one of the DNS requests objects
 func (cl Serializer) DecodeDnsRequest(request []byte) (Request, error) {
 	for _, c := range Commands {
-		if c.IsOfType(request) {
+		if c.IsOfType(request) && c.NewRequest != nil {
 			req := c.NewRequest()
 			err := req.Decode(cl.Upstream.Encoder, request)
 			if err != nil {
@@ -171,5 +171,5 @@ func (cl Serializer) DecodeDnsRequest(request []byte) (Request, error) {
 			return req, err
 		}
 	}
-	return nil, errors.Errorf("Invalid request. Don't know how to handle command type: %v", string(request[0]))
+	return nil, errors.Errorf("Invalid request. Don't know how to handle command type: %q", request)
 }
